@@ -678,6 +678,9 @@ func (tr *Tr) execNext(fr *Frame, x *ssa.Next, st *State) Value {
 }
 
 func (tr *Tr) nameTermInt(hint, term string) string {
+	if tr.specMode > 0 {
+		return term
+	}
 	s := tr.freshSym(hint, false)
 	tr.sc.fact(sEq(s, term))
 	return s
